@@ -127,6 +127,35 @@ def run(ctx: Ctx) -> int:
         cases = [diff.Case(backend, t, evgen.gen_events(s, ctx.rng("samename", backend, i), 6), diff.members_used(s, t), tag={"features": {"same_parameter_name_nesting": 2, f"t{i}": 1}, "query": t}) for i, t in enumerate(T)]
         ctx.count("same_name_nesting_cases", len(cases))
         diff.differential(ctx, eng, cases, judge.on_result)
+    # aggregate forms: every kind of seed (literal, negative, constant expression, member, another aggregate bare and inside an
+    # expression) x every kind of sequence (plain, filtered, flattened by an inner SelectMany, a sequence of sequences), per event
+    # and per object - the region that generator exclusions kept dark until the findings behind them were repaired
+    for backend in sch.BACKENDS:
+        s = sch.fixed(backend)
+        C = s["main"]["coll"]
+        A, B = f"e.{C}('A')", f"e.{C}('B')"
+        seeds = ["0", "-1", "(1 + 1)", "0.5", f"{B}.Count()", f"{B}.Count() * 100", f"({B}.Select(lambda k: k.pt()).Sum() / 2)", f"({B}.Count() - 1)"]
+        seqs = [f"{A}.Select(lambda j: j.pt())", f"{A}.Where(lambda j: j.pt() > 20.0).Select(lambda j: j.eta())", f"{A}.SelectMany(lambda j: j.trkPts())",
+                f"{A}.SelectMany(lambda j: j.tracks()).Select(lambda t: t.pt())"]
+        T = []
+        for i, sd in enumerate(seeds):
+            sq = seqs[(i + ctx.seed) % len(seqs)] if ctx.quick else None
+            for q in ([sq] if sq else seqs):
+                T.append(f"ds.Select(lambda e: {q}.Aggregate({sd}, lambda a, x: a + x))")
+        oseeds = ["j.pt()", "j.hits().Count()", "(j.hits().Count() * 10 + 1)", "-2", "(j.nTrk() - j.hits().Count())", "j.trkPts().Sum()"]
+        for i, sd in enumerate(oseeds):
+            T.append(f"ds.Select(lambda e: {A}.Select(lambda j: j.trkPts().Aggregate({sd}, lambda a, x: a + x * 2)))")
+            T.append(f"ds.SelectMany(lambda e: {A}).Select(lambda j: (j.tracks().SelectMany(lambda t: t.d0s()).Aggregate({sd}, lambda a, x: a - x), j.pt()))")
+        T += [f"ds.Select(lambda e: {A}.Select(lambda j: j.trkPts().Select(lambda t: t * 2)).Count())", f"ds.Select(lambda e: {A}.Select(lambda j: j.tracks().Where(lambda t: t.pt() > 10.0)).Count() + {B}.Count())",
+              f"ds.Select(lambda e: {A}.Select(lambda j: j.tracks().Select(lambda t: t.d0s().Select(lambda d: d + 1)).Count()))",
+              f"ds.Select(lambda e: ({A}.SelectMany(lambda j: j.trkPts()).Count(), {A}.SelectMany(lambda j: j.trkPts()).Sum(), {A}.Count()))",
+              f"ds.Where(lambda e: {A}.SelectMany(lambda j: j.tracks()).Count() > 0).Select(lambda e: {A}.SelectMany(lambda j: j.tracks()).First().pt())",
+              f"ds.SelectMany(lambda e: {A}).Select(lambda j: j.tracks().Select(lambda t: Range(0, 3)))",
+              f"ds.SelectMany(lambda e: {A}).Where(lambda j: j.pt() > 10.0).Select(lambda j: j.tracks().Where(lambda t: t.pt() > 5.0).Select(lambda t: t.d0s()))",
+              f"ds.SelectMany(lambda e: {A}).Select(lambda j: j.trkPts().Where(lambda p: p > j.pt()))"]
+        cases = [diff.Case(backend, t, evgen.gen_events(s, ctx.rng("aggforms", backend, i), 6), diff.members_used(s, t), tag={"features": {"aggregate_forms": 2, f"t{i}": 1}, "query": t}) for i, t in enumerate(T)]
+        ctx.count("aggregate_form_cases", len(cases))
+        diff.differential(ctx, eng, cases, judge.on_result)
     judge.settle()
     decided = ctx.counters["events_decided"]
     if decided < (ctx.counters["events_unspec"] + decided) * 0.5:
